@@ -80,6 +80,15 @@ def gen(ctx, alias_p=0.04):
     for k in range(rng.choice([0, 1, 2, 3])):
         if vals:
             top["alias%d" % k] = rng.choice(vals)
+    if rng.random() < 0.15:
+        # a watch whose value holds an object the collector cannot look into (its attribute lookup raises) next to an ordinary one,
+        # and a LATER watch on that ordinary object: whatever happens to the first watch, every reference of the second resolves
+        shared = objgen.Person("w", 1)
+        first = [shared, objgen.BadGetattr()] if rng.random() < 0.5 else {"s": shared, "x": objgen.BadGetattr(), "t": (shared,)}
+        case["watches"] = list(case["watches"]) + [("holder()", first), ("held()", shared)]
+        case["keep"].extend([shared, first])
+        case["limits"]["max_vars"] = max(case["limits"]["max_vars"], 15)
+        case["limits"]["max_depth"] = max(case["limits"]["max_depth"], 3)
     aliased = False
     if rng.random() < alias_p:
         f = rng.choice(case["frames"])
